@@ -458,6 +458,16 @@ func (cluH) Execute(c *Case, res *Result) {
 		_ = json.Unmarshal(raw, &op)
 		ops = append(ops, op)
 	}
+	for _, op := range ops {
+		if op.Kind == "create" && op.Secs > 0 {
+			// a deployment on slow machines fails by running into its own timeout: that is the
+			// single failure of this history, nothing else is failed by injection (a second
+			// failure could land in the compensation of the first, which the properties exclude)
+			sim.FaultFilter = func(class, label string) bool { return false }
+			res.Probes["history_with_slow_create_no_injection"]++
+			break
+		}
+	}
 	setupDone := make(chan struct{})
 	sim.Go(func() {
 		ctx := context.Background()
